@@ -190,6 +190,22 @@ for _prop in ("C14", "C16"):
 OBLIGATIONS.append(M("C16", "c16_step_error_state", {"q": "step_error"}, ["Interpreter::match_script_bit", "Interpreter::match_opcode"],
                      "every claimed opcode and IF/NOTIF as a single script step; stack depth 0..arity; operand length 1 (5 for number/bool consuming opcodes)", cost=2, stubs=INTERP_STUBS))
 
+# ---------------------------------------------------------------- C09
+EXPLANATION["C09"] = ("Decoder totality, decided on control flow with content-free inputs: E2 executes the MIR of each decoding entry point on a buffer/string of SYMBOLIC LENGTH "
+                      "(reads return fresh values, slices return opaque strings of the computed length) and asks z3 for (a) any feasible path into a panic — the MIR's own overflow/bounds "
+                      "assertions, slice-range and index checks, GenericArray length assertions, unwraps — and (b) any allocation whose size comes from the input and can exceed 64x the input "
+                      "length + 1 MiB. Models are turned into concrete inputs and replayed natively under a 3 GB address-space cap (panic or abort = reproduced). Entry points: "
+                      "ECIESCiphertext::from_bytes, PrivateKey::from_wif, P2PKHAddress::from_string, ExtendedPrivateKey/ExtendedPublicKey::from_string, ECDSA::verify_hashbuf, "
+                      "ECDSA::sign_digest_with_deterministic_k, Signature::recover_public_key_from_digest, AES encrypt/decrypt x 4 modes, TxIn::from_outpoint_bytes, Signature::from_compact_bytes, "
+                      "SighashSignature::from_bytes, Script::from_bytes (inputs <= 5 bytes, opcode classes abstracted), TxIn::read_in, TxOut::read_in, Transaction::from_bytes. "
+                      "ASM/template text, JSON/CBOR, hex wrappers, deep IF nesting and memory use in general are outside; EC/Base58/hex/cipher internals are accept-or-reject oracles.")
+OBLIGATIONS += [
+    M("C09", "c09_decoders_total", {"q": "decoders"}, ["23 decoding entry points (see explanation) and their crate-internal callees: read_varint (3 impls), TxIn::read_in, TxOut::read_in, from_hex_impl, from_bytes_impl, is_compressed, ..."],
+      "input length symbolic (<= 2^20 bytes; digests/keys/IVs <= 4096/64; Script::from_bytes <= 5 bytes); loops over input-declared counts unrolled twice; element decoders opaque inside Transaction::from_bytes", cost=4,
+      stubs=("E2 decode models: Cursor reads return fresh values when enough bytes remain; bs58/hex decode, SecretKey/EncodedPoint parsing, DER, CBC/CTR construction and the EC entry points are accept-or-reject oracles; "
+             "Base58 length fact: n characters decode to between 5n/7-1 and n bytes",), timeout=2400),
+]
+
 
 def for_property(pid):
     return [dict(o) for o in OBLIGATIONS if o["property"] == pid]
